@@ -38,6 +38,14 @@ CLAIMED = {
             "Shows that no value derived from a draw can reach an output, log, panic message, error text or package variable of the library, for all recipes and streams including rejected candidates; every sink site is inventoried.",
             "Trusted: foreign functions do not stash arguments in global state; go/ssa model. Not decided: control dependence, timing, what callers do with the Password.",
             "DESIGN.md section 3 C18"),
+    "C12": ("panic-site enumeration over Tokenize's call tree + linear/parity bounds prover (Fourier-Motzkin over dominating guards and loop invariants) + CFG dominance rules for the error clauses",
+            "Static decision of the no-panic clause and the error clauses of Tokenize for every string/index/entropy triple: each potentially panicking instruction is an obligation discharged from dominating conditions; success returns need a declared kind, a non-empty index and (full kind) an odd length.",
+            "Trusted: strings.Split/Join and fmt.Errorf total; no int overflow on lengths; go/ssa model. Not decided: value-level equality of reconstructed tokens.",
+            "DESIGN.md section 3 C12"),
+    "C13": ("return-pair and guard-dominance rules, context-sensitive panic-freedom of the Generate call trees (nilness facts + linear bounds prover + size summaries), counted retry loop",
+            "Partial (structural clauses): error/nil discipline, guards dominate draws, bounds >= 1, no reachable panic other than the intended CSPRNG-failure panic, attempt budget. The numeric clause (SuccessProbability exact; ordinary recipes never refused) is not decided.",
+            "Trusted: listed foreign functions do not panic; set interface values non-nil; no int/uint32 wrap. NOT decided: exactness of SuccessProbability; the NaN refusal for overlapping required sets is not reported.",
+            "DESIGN.md section 3 C13"),
 }
 
 NOT_APPLICABLE = {
